@@ -42,7 +42,15 @@ func ValidateAgainstSchema(chrt *chart.Chart, values map[string]interface{}) err
 	slog.Debug("number of dependencies in the chart", "dependencies", len(chrt.Dependencies()))
 	// For each dependency, recursively call this function with the coalesced values
 	for _, subchart := range chrt.Dependencies() {
-		subchartValues := values[subchart.Name()].(map[string]interface{})
+		subchartValues := map[string]interface{}{}
+		if raw, exists := values[subchart.Name()]; exists && raw != nil {
+			table, ok := raw.(map[string]interface{})
+			if !ok {
+				sb.WriteString(fmt.Sprintf("%s:\ninvalid type for values: expected a table, got %T\n", subchart.Name(), raw))
+				continue
+			}
+			subchartValues = table
+		}
 		if err := ValidateAgainstSchema(subchart, subchartValues); err != nil {
 			sb.WriteString(err.Error())
 		}
